@@ -576,7 +576,7 @@ def gen_flow(rng, name, max_tasks=4, features=None, plain=False):
         params.append(ntypes)
         avail.append(ntypes)
     for t in range(1, ntasks + 1):
-        nin = min(len(avail), rng.choice([0, 1, 1, 2, 2]))
+        nin = min(len(avail), rng.choice([0, 1, 1, 2, 2, 3]))
         ins = rng.sample(avail, nin)
         nout = rng.choice([0, 1, 1, 1, 2]) if not plain else rng.choice([1, 1, 2])
         outs = []
